@@ -329,6 +329,10 @@ def run_case(case: dict[str, Any], wd: Path) -> dict[str, Any]:
         if case["lonlat"]:
             ex, ey = (d["lon"] - 5.0) / 0.02, (d["lat"] - 60.0) / 0.01
             tol = 1e-6
+            # the conversion stops when (dlon^2 + dlat^2) < 1e-7 (C16: "to the solver tolerance"): a start position within that residual is the row's position
+            res2 = ((5.0 + 0.02 * vals["X"]) - d["lon"]) ** 2 + ((60.0 + 0.01 * vals["Y"]) - d["lat"]) ** 2
+            if res2 < 1.0e-7:
+                ex, ey = vals["X"], vals["Y"]
         else:
             ex, ey = d["X"], d["Y"]
             tol = 1e-12
